@@ -134,3 +134,244 @@ theorem eraseCells_inv {cs : List Cell} (i : Nat) (a : Attrs) (hinv : CellsInv W
         · exact pairThrough_set hc hinv.paired (by simp [Cell.clear, hcc']) (by simp [Cell.clear, hw'])
 
 end Vt
+
+namespace Vt
+set_option linter.unusedSimpArgs false
+variable (W : Nat → Option Nat)
+
+theorem decomp1 {α} {cs : List α} {i : Nat} {c : α} (hc : cs[i]? = some c) :
+    ∃ a b, cs = a ++ c :: b ∧ a.length = i :=
+  ⟨cs.take i, cs.drop (i + 1), list_split' hc, by simp [List.length_take, Nat.min_eq_left (Nat.le_of_lt (getElem?_lt hc))]⟩
+
+theorem decomp2 {α} {cs : List α} {i : Nat} {c d : α} (hc : cs[i]? = some c) (hd : cs[i + 1]? = some d) :
+    ∃ a b, cs = a ++ c :: d :: b ∧ a.length = i := by
+  obtain ⟨a, b, h, hl⟩ := decomp1 hc
+  subst h
+  have : (a ++ c :: b)[i + 1]? = b[0]? := by
+    rw [List.getElem?_append_right (by omega)]
+    simp [hl]
+  rw [this] at hd
+  cases b with
+  | nil => simp at hd
+  | cons d' b' =>
+    simp at hd; subst hd
+    exact ⟨a, b', rfl, hl⟩
+
+/-- pairing facts for a list written as `a ++ c :: b` -/
+theorem paired_decomp1 {a b : List Cell} {c : Cell} (h : pairThrough false (a ++ c :: b) = some false) :
+    ∃ p, pairThrough false a = some p ∧ c.cont = p ∧ pairThrough c.wide b = some false := by
+  rw [pairThrough_append] at h
+  cases h1 : pairThrough false a with
+  | none => simp [h1] at h
+  | some p =>
+    simp only [h1, Option.bind_some] at h
+    obtain ⟨h2, h3⟩ := pairThrough_head h
+    exact ⟨p, rfl, h2, h3⟩
+
+theorem cellsInv_of_append {a b : List Cell} (h : CellsInv W (a ++ b)) :
+    (∀ c ∈ a, cellOk W c = true) ∧ (∀ c ∈ b, cellOk W c = true) :=
+  ⟨fun c hc => h.cells_ok c (List.mem_append_left _ hc), fun c hc => h.cells_ok c (List.mem_append_right _ hc)⟩
+
+/-- `Row::remove(i)` (one step of DCH): total on a well-formed row, keeps it well-formed, one cell
+shorter, unwrapped -/
+theorem remove_ok {r : Row} {i : Nat} (hinv : CellsInv W r.cells) (hi : i < r.cells.length) :
+    ∃ r', r.remove i = .ok r' ∧ CellsInv W r'.cells ∧ r'.cells.length = r.cells.length - 1 ∧
+      r'.wrapped = false := by
+  obtain ⟨cs, wr⟩ := r
+  simp only at hinv hi ⊢
+  have hc := List.getElem?_eq_getElem hi
+  generalize cs[i] = c at hc
+  have hcok := hinv.cells_ok c (List.mem_of_getElem? hc)
+  by_cases hw : c.wide = true
+  · obtain ⟨d, hd, hdc⟩ := paired_wide_next hc hinv.paired hw
+    have hdok := hinv.cells_ok d (List.mem_of_getElem? hd)
+    obtain ⟨a, b, rfl, hl⟩ := decomp2 hc hd
+    obtain ⟨p, e1, e2, e3⟩ := paired_decomp1 hinv.paired
+    obtain ⟨e4, e5⟩ := pairThrough_head e3
+    have hcc : c.cont = false := by
+      by_cases h : c.cont = true
+      · have := (cellOk_cont W c hcok h).1; simp [hw] at this
+      · simpa using h
+    have hdw : d.wide = false := (cellOk_cont W d hdok hdc).1
+    subst hl
+    refine ⟨⟨a ++ d.clear d.attrs :: b, false⟩, ?_, ?_, by simp, rfl⟩
+    · simp [Row.remove, Row.clearWide, getM, Cell.isWide, hw, modifyM, removeM, List.getElem?_append_right,
+        List.set_append_right, List.eraseIdx_append_of_length_le]
+    · constructor
+      · intro x hx
+        rcases List.mem_append.mp hx with hx | hx
+        · exact hinv.cells_ok x (by simp [hx])
+        · rcases List.mem_cons.mp hx with rfl | hx
+          · exact cellOk_clear W d d.attrs hdok
+          · exact hinv.cells_ok x (by simp [hx])
+      · have := pairThrough_splice (mid := [d.clear d.attrs]) (b := b) e1
+          (by simp [pairThrough, Cell.clear, ← e2, hcc] : pairThrough p [d.clear d.attrs] = some false)
+          (by simpa [hdw] using e5)
+        simpa using this
+  · have hw' : c.wide = false := by simpa using hw
+    by_cases hcc : c.cont = true
+    · obtain ⟨j, p, rfl, hp, hpw⟩ := paired_cont_prev hc hinv.paired hcc
+      have hpok := hinv.cells_ok p (List.mem_of_getElem? hp)
+      obtain ⟨a, b, rfl, hl⟩ := decomp2 hp hc
+      obtain ⟨q, e1, e2, e3⟩ := paired_decomp1 hinv.paired
+      obtain ⟨e4, e5⟩ := pairThrough_head e3
+      have hpc : p.cont = false := by
+        by_cases h : p.cont = true
+        · have := (cellOk_cont W p hpok h).1; simp [hpw] at this
+        · simpa using h
+      subst hl
+      refine ⟨⟨a ++ p.clear p.attrs :: b, false⟩, ?_, ?_, by simp, rfl⟩
+      · simp [Row.remove, Row.clearWide, getM, Cell.isWide, hw', Cell.isWideContinuation, hcc, modifyM,
+          removeM, List.getElem?_append_right, List.set_append_right, List.eraseIdx_append_of_length_le, subM]
+      · constructor
+        · intro x hx
+          rcases List.mem_append.mp hx with hx | hx
+          · exact hinv.cells_ok x (by simp [hx])
+          · rcases List.mem_cons.mp hx with rfl | hx
+            · exact cellOk_clear W p p.attrs hpok
+            · exact hinv.cells_ok x (by simp [hx])
+        · have := pairThrough_splice (mid := [p.clear p.attrs]) (b := b) e1
+            (by simp [pairThrough, Cell.clear, ← e2, hpc] : pairThrough q [p.clear p.attrs] = some false)
+            (by simpa [hw'] using e5)
+          simpa using this
+    · have hcc' : c.cont = false := by simpa using hcc
+      obtain ⟨a, b, rfl, hl⟩ := decomp1 hc
+      obtain ⟨q, e1, e2, e3⟩ := paired_decomp1 hinv.paired
+      subst hl
+      refine ⟨⟨a ++ b, false⟩, ?_, ?_, by simp, rfl⟩
+      · simp [Row.remove, Row.clearWide, getM, Cell.isWide, hw', Cell.isWideContinuation, hcc', removeM,
+          List.getElem?_append_right, List.eraseIdx_append_of_length_le]
+      · constructor
+        · intro x hx
+          rcases List.mem_append.mp hx with hx | hx
+          · exact hinv.cells_ok x (by simp [hx])
+          · exact hinv.cells_ok x (by simp [hx])
+        · rw [pairThrough_append, e1]
+          simp only [Option.bind_some]
+          rw [← e2, hcc']; rw [hw'] at e3; exact e3
+
+end Vt
+
+namespace Vt
+set_option linter.unusedSimpArgs false
+variable (W : Nat → Option Nat)
+
+theorem cellOk_new' : cellOk W Cell.new = true := by simp [cellOk, Cell.new, Utf8.fromUtf8]
+
+theorem pairThrough_replicate_new (n : Nat) : pairThrough false (List.replicate n Cell.new) = some false := by
+  induction n with
+  | zero => rfl
+  | succ n ih => simp [List.replicate_succ, pairThrough, Cell.new] at ih ⊢; exact ih
+
+/-- appending blank cells keeps a row well-formed -/
+theorem cellsInv_append_blank {cs : List Cell} (n : Nat) (h : CellsInv W cs) :
+    CellsInv W (cs ++ List.replicate n Cell.new) := by
+  constructor
+  · intro x hx
+    rcases List.mem_append.mp hx with hx | hx
+    · exact h.cells_ok x hx
+    · rw [(List.mem_replicate.mp hx).2]; exact cellOk_new' W
+  · rw [pairThrough_append, h.paired]
+    exact pairThrough_replicate_new n
+
+/-- cutting a well-formed row after `n ≥ 1` cells and blanking a wide character left in the last
+column keeps it well-formed (`Row::truncate`, and `Row::resize` after the fix 15f47d5) -/
+theorem cellsInv_cut {cs : List Cell} {n : Nat} {c : Cell} (h : CellsInv W cs) (hc : cs[n]? = some c) :
+    CellsInv W (cs.take n ++ [if c.wide then c.clear c.attrs else c]) := by
+  obtain ⟨a, b, rfl, hl⟩ := decomp1 hc
+  obtain ⟨p, e1, e2, e3⟩ := paired_decomp1 h.paired
+  have hcok := h.cells_ok c (by simp)
+  subst hl
+  simp only [List.take_left']
+  constructor
+  · intro x hx
+    rcases List.mem_append.mp hx with hx | hx
+    · exact h.cells_ok x (by simp [hx])
+    · simp only [List.mem_singleton] at hx
+      rw [hx]; split
+      · exact cellOk_clear W c c.attrs hcok
+      · exact hcok
+  · rw [pairThrough_append, e1]
+    simp only [Option.bind_some, pairThrough]
+    by_cases hw : c.wide = true
+    · have hcc : c.cont = false := by
+        by_cases h' : c.cont = true
+        · have := (cellOk_cont W c hcok h').1; simp [hw] at this
+        · simpa using h'
+      simp [hw, Cell.clear, ← e2, hcc]
+    · have hw' : c.wide = false := by simpa using hw
+      simp [hw', e2]
+
+theorem take_succ_of_getElem? {α} {cs : List α} {m : Nat} {c : α} (hc : cs[m]? = some c) :
+    cs.take (m + 1) = cs.take m ++ [c] := by
+  rw [List.take_add_one, hc]; rfl
+
+theorem set_last_of_take {α} {cs : List α} {m : Nat} (hm : m ≤ cs.length) (c c' : α) :
+    (cs.take m ++ [c]).set m c' = cs.take m ++ [c'] := by
+  rw [List.set_append_right _ _ (by simp [List.length_take, Nat.min_eq_left hm])]
+  simp [List.length_take, Nat.min_eq_left hm]
+
+/-- `Row::truncate(len)` for `1 ≤ len ≤ length` -/
+theorem truncate_ok {r : Row} {len : Nat} (hinv : CellsInv W r.cells) (h1 : 1 ≤ len) (h2 : len ≤ r.cells.length) :
+    ∃ r', r.truncate len = .ok r' ∧ CellsInv W r'.cells ∧ r'.cells.length = len ∧ r'.wrapped = false := by
+  obtain ⟨m, rfl⟩ : ∃ m, len = m + 1 := ⟨len - 1, by omega⟩
+  have hi : m < r.cells.length := by omega
+  have hc := List.getElem?_eq_getElem hi
+  generalize r.cells[m] = c at hc
+  refine ⟨⟨r.cells.take m ++ [if c.wide then c.clear c.attrs else c], false⟩, ?_,
+    cellsInv_cut W hinv hc, by simp [List.length_take]; omega, rfl⟩
+  have hget : (r.cells.take m ++ [c])[m]? = some c := by
+    rw [List.getElem?_append_right (by simp [List.length_take]; omega)]
+    simp [List.length_take, Nat.min_eq_left (Nat.le_of_lt hi)]
+  simp only [Row.truncate, subM_ok h1, ok_bind, Nat.add_sub_cancel, take_succ_of_getElem? hc, modifyM,
+    hget, pure_eq_ok, Cell.isWide, set_last_of_take (Nat.le_of_lt hi)]
+  rfl
+
+/-- `Row::resize(len, Cell::new())` for `len ≥ 1` (the fixed version: a cut wide character is blanked) -/
+theorem resize_inv {r : Row} {len : Nat} (hinv : CellsInv W r.cells) (h1 : 1 ≤ len) :
+    CellsInv W (r.resize len Cell.new).cells ∧ (r.resize len Cell.new).cells.length = len ∧
+      (r.resize len Cell.new).wrapped = false := by
+  have hlen : (resizeList r.cells len Cell.new).length = len := by
+    simp [resizeList, List.length_take]; omega
+  refine ⟨?_, ?_, by simp [Row.resize]⟩
+  · simp only [Row.resize]
+    by_cases hle : len ≤ r.cells.length
+    · -- shrink (or keep): take len, then blank a wide last cell
+      obtain ⟨m, rfl⟩ : ∃ m, len = m + 1 := ⟨len - 1, by omega⟩
+      have hi : m < r.cells.length := by omega
+      have e : resizeList r.cells (m + 1) Cell.new = r.cells.take (m + 1) := by
+        simp [resizeList, Nat.sub_eq_zero_of_le hle]
+      have hc := List.getElem?_eq_getElem hi
+      generalize r.cells[m] = c at hc
+      rw [e, take_succ_of_getElem? hc]
+      have hcut := cellsInv_cut W hinv hc
+      simp only [List.getLast?_append, List.getLast?_singleton, Option.some_or, Cell.isWide,
+        List.length_append, List.length_take, Nat.min_eq_left (Nat.le_of_lt hi), List.length_cons,
+        List.length_nil, Nat.zero_add, Nat.add_sub_cancel]
+      split
+      · rename_i hw
+        simp only [hw, ↓reduceIte] at hcut
+        rw [set_last_of_take (Nat.le_of_lt hi)]; exact hcut
+      · rename_i hw
+        have hw' : c.wide = false := by simpa using hw
+        simpa only [hw', Bool.false_eq_true, ↓reduceIte] using hcut
+    · -- grow: the old cells followed by blanks; the last cell is blank, not wide
+      have hgt : r.cells.length < len := by omega
+      have e : resizeList r.cells len Cell.new = r.cells ++ List.replicate (len - r.cells.length) Cell.new := by
+        simp [resizeList, List.take_of_length_le (Nat.le_of_lt hgt)]
+      rw [e]
+      have hlast : (r.cells ++ List.replicate (len - r.cells.length) Cell.new).getLast? = some Cell.new := by
+        rw [List.getLast?_append]
+        have : (List.replicate (len - r.cells.length) Cell.new).getLast? = some Cell.new := by
+          rw [List.getLast?_replicate]; simp; omega
+        simp [this]
+      rw [hlast]
+      have hnw : Cell.new.isWide = false := rfl
+      simp only [hnw, Bool.false_eq_true, ↓reduceIte]
+      exact cellsInv_append_blank W _ hinv
+  · simp only [Row.resize]
+    split
+    · split <;> simp [hlen]
+    · exact hlen
+
+end Vt
